@@ -58,11 +58,16 @@ theorem frame_prefix_decode (buf : List Nat) (size : Nat) (cfg : Cfg) (pk : Pack
       (packetBody cfg pk ++ [.patchInitial word k] ++ sig) := by
     rw [legalRunP_append]
     exact ⟨hl0, legalRunP_of_legalRun k sig _ hsig⟩
-  have k1 := decode_flags_prefix_stream buf size k (packetBody cfg pk ++ [.patchInitial word k] ++ sig) suf
-    hs hb hk1 hk8 hl hsuf hnF herrF B S hB hS hBl
-  have k2 := k1 hc
-  have key := k2 hr
-  clear k1 k2
+  have k0 := decode_flags_prefix_stream buf size k (packetBody cfg pk ++ [.patchInitial word k] ++ sig) suf
+    hs hb hk1 hk8
+  have k1 := k0 hl
+  have k2 := k1 hsuf
+  have k3 := k2 hnF
+  have k4 := k3 herrF
+  have k5 := k4 B S hB hS hBl
+  have k6 := k5 hc
+  have key := k6 hr
+  clear k0 k1 k2 k3 k4 k5 k6
   have hbo : bitsOps word k = flagOps (headerBits cfg pk) := by
     rw [← hword, ← hlen]; exact bitsOps_word _ hbits
   have hlp : lastPatch 0 (packetBody cfg pk ++ [.patchInitial word k] ++ sig) = word := by
